@@ -148,7 +148,7 @@ Definition rdnss_Apply (auto : bool) (lifetime : dur) (servers : list N) (addrs 
 Inductive raw_server :=
 | RSbad                       (* ParseAddr failed *)
 | RSnot6                      (* !Is6() || Is4In6() *)
-| RSzone (a : N)              (* an IPv6 address with a zone (fe80::1%eth0): refused since fix rdnss-zone *)
+| RSzone (a : N)              (* an IPv6 address with a zone (fe80::1%eth0): refused since fix f20e750 (fixes/rdnss-zone.diff) *)
 | RS6 (a : N).                (* an IPv6 address without zone *)
 
 Definition perr_parse : N := 1.
